@@ -1273,6 +1273,49 @@ def graph_project(rep, rng, idx):
                 # the next make (nothing touched) repairs it - which is itself not a no-op; bring the tree up to date
                 time.sleep(0.02)
                 project.make(s.build, ['all'], stub_tools=True)
+        # ---- a step that FAILS: touch a source, let one step downstream of it fail (the recorder exits 1 and creates
+        # nothing), then build again without the failure: over the two builds exactly the downstream set must have been
+        # re-created - in particular the failed step and everything below it run in the second build - and a third
+        # build does nothing
+        stubbed = set(st['out'] for st in G if not any(('copy_file(%r' % st['out']) in l for l in p.lines))   # cp is not the recorder
+        multis = [st['out'] for st in G if st['multi'] and st['out'] in stubbed and st['out'] in built]
+        others = sorted(o for o in stubbed & built if o not in multis)
+        failing = multis + rng.sample(others, min(len(others), 2 if rep.tier != 'thorough' else 6))
+        for F in failing:
+            ups = [f for f in sources if F in expected('src:' + f, False)]
+            if not ups:
+                continue
+            f = rng.choice(ups)
+            name = 'src:' + f
+            E = expected(name, False) & built
+            time.sleep(0.02)
+            os.utime(os.path.join(s.src, f), None)
+            before = _mtimes(s.build, prim)
+            rc1, _, out1 = project.make(s.build, ['all'], stub_tools=True, extra_env={'ARGVREC_FAIL': F})
+            rc2, _, out2 = project.make(s.build, ['all'], stub_tools=True)
+            after = _mtimes(s.build, prim)
+            ran = set(o for o in prim if after[o] != before[o])
+            wants = [E, expected(name, True) & built]
+            rep.case('graph-fail:%d:%s:%s' % (idx, name, F), True)
+            rep.count('graph:failed step then rebuild')
+            ok = rc1 != 0 and rc2 == 0 and ran in wants
+            if ok:
+                time.sleep(0.02)
+                b3 = _mtimes(s.build, prim)
+                rc3, _, out3 = project.make(s.build, ['all'], stub_tools=True)
+                a3 = _mtimes(s.build, prim)
+                ok = rc3 == 0 and a3 == b3
+                out2 = out3 if not ok else out2
+            if not ok:
+                lost = wants[0] - ran
+                classes = (STAMP_CLASS,) if (rc1 != 0 and rc2 == 0 and lost and lost <= stale_prone and not (ran - wants[1])) else ()
+                bad += rep.fail('after touching %r with step %r failing once (make rc %d), the next make (rc %d) leaves %r not rebuilt; '
+                                're-created over both builds: %r, the script implies %r' % (name, F, rc1, rc2, sorted(lost), sorted(ran), sorted(wants[0])),
+                                {'kind': 'graph-fail', 'script': p.script(), 'touched': name, 'failing_step': F, 'rc_failing_make': rc1,
+                                 'rc_next_make': rc2, 'recreated': sorted(ran), 'expected': sorted(wants[0]), 'not_rebuilt': sorted(lost),
+                                 'make_output_failing': out1[-500:], 'make_output_next': out2[-500:]}, classes=classes)
+                time.sleep(0.02)
+                project.make(s.build, ['all'], stub_tools=True)
         # ---- Ninja: downstream closure of the edge graph
         if nin is not None:
             for f in sources:
